@@ -55,8 +55,10 @@ def main(argv=None):
         return eng.replay(a.prop, a.replay)
     try:
         out = eng.run(a.prop, a.tier, a.seed)
-    except common_MachineryError as ex:      # noqa
-        print("MACHINERY-ERROR property=%s %s" % (a.prop, ex))
+    except BaseException as ex:      # noqa  a failure of the machinery is never a verdict
+        import traceback
+        traceback.print_exc()
+        print("MACHINERY-ERROR property=%s %s: %s" % (a.prop, type(ex).__name__, ex))
         return 2
     wall = time.time() - t0
     nviol = 0
